@@ -14,6 +14,7 @@ C18 — executable model of `mca.py`:
 Floats: a division by zero yields inf/nan instead of raising; here such an entry is `none`.
 -/
 import MxlVerif.Model.C09Workers
+import MxlVerif.Generated.C18Expr
 namespace Mxl.C18
 open Mxl.C09
 
@@ -134,7 +135,10 @@ def oldValue (c : Content) (par : Name) : Except Err Rat := do
 
 def parElasticityOfT (vars : Row) (t : Rat) (normalized : Bool) (d : Rat) (c : Content) (par : Name) : Run Column :=
   (rd c (oldValue c par)).bind fun c old =>
-  (tryFinally (parTry vars t d old c par) fun c' => wr c' (updatePars c' [(par, old)])).bind fun c3 ul =>
+  (if Generated.C18.parFinallyResets then                -- regenerated from mca.py: is the reset in a `finally:`?
+      tryFinally (parTry vars t d old c par) fun c' => wr c' (updatePars c' [(par, old)])
+    else
+      (parTry vars t d old c par).bind fun c2 ul => (wr c2 (updatePars c2 [(par, old)])).bind fun c3 _ => (c3, .ok ul)).bind fun c3 ul =>
   (rd c3 (baseFlux normalized c3 vars t ul.1)).bind fun c3 base =>
   (c3, .ok (zip3 ul.1 ul.2 base (coef normalized d old)))
 
@@ -262,7 +266,9 @@ def respFinally (y0 : Option Row) (saved : List (Name × Val)) (par : Name) (old
 def responseWorkerT (w : Worker) (y0 : Option Row) (normalized : Bool) (d : Rat) (c : Content) (par : Name) :
     Run Column :=
   (rd c (oldValue c par)).bind fun c old =>             -- saved = model.get_raw_variables() = c.vars
-  tryFinally (respTry w y0 normalized d old c par) (respFinally y0 c.vars par old)
+  if Generated.C18.respFinallyRestores then             -- regenerated from mca.py: are reset and restore in a `finally:`?
+    tryFinally (respTry w y0 normalized d old c par) (respFinally y0 c.vars par old)
+  else (respTry w y0 normalized d old c par).bind fun c8 col => (restoreVars y0 c.vars c8, .ok col)
 
 def responseWorker (w : Worker) (y0 : Option Row) (normalized : Bool) (d : Rat) (c : Content) (par : Name) :
     Except Err (Content × Column) := (responseWorkerT w y0 normalized d c par).toExcept
